@@ -14,6 +14,14 @@ RegTabOf(prog, ovr) == RegTab(prog, Env(prog, ovr))
 ValidRegs(prog, ovr) == LET t == RegTabOf(prog, ovr) IN \A r \in DOMAIN t : t[r].ok
 ValidIn(prog, ovr) == ValidRegs(prog, ovr) /\ ~HasBad(Meaning(prog, ovr)) /\ TypeOK(prog, ovr)
                       /\ ~SubNestBad(Meaning(prog, ovr), FALSE)
+                      \* a reference in the body of a macro that is never called is checked all the same, as far as it does
+                      \* not depend on the macro's parameters
+                      /\ MacroBodiesOK(prog, ovr)
+
+\* An alias without elements (map r q[1:1], or a descending slice whose stop lies beyond its start) denotes no qubit:
+\* whether declaring it is an error is left open (the implementation rejects some of them by looking at the stop
+\* value alone), so acceptance is demanded only of programs whose aliases all have elements.
+NoEmptyAlias(prog, ovr) == LET t == RegTabOf(prog, ovr) IN \A r \in DOMAIN t : t[r].ok => Len(t[r].elems) >= 1
 
 MacroMeaning(prog, ovr, j) ==
   LET env == Env(prog, ovr) IN
@@ -75,8 +83,9 @@ MapApplicable(prog) ==
         LET x == ss[j].args[a] IN x.k = "qubit" /\ x.base.k = "reg" /\ x.base.v \notin fn /\ x.idx.k = "param"
 
 Common(c) ==
-  F("error_type", c.out.cls \notin {"ok", "jaqal_error"})
-  \cup F("accepted", ValidIn(c.inp, c.ovr) /\ c.out.cls # "ok" /\ (c.site \in {"fill_in_map", "fill_in_let_map"} => MapApplicable(c.inp)))
+  \* (the parser reports violations it can see in the text - a register of size 0, say - as parse errors)
+  F("error_type", c.out.cls \notin ({"ok", "jaqal_error"} \cup (IF c.site = "parse" THEN {"parse_error"} ELSE {})))
+  \cup F("accepted", ValidIn(c.inp, c.ovr) /\ NoEmptyAlias(c.inp, c.ovr) /\ c.out.cls # "ok" /\ (c.site \in {"fill_in_map", "fill_in_let_map"} => MapApplicable(c.inp)))
 
 ExpandMacros(c, preserve) ==
   LET i == c.inp  o == c.out.prog
@@ -85,8 +94,10 @@ ExpandMacros(c, preserve) ==
      IF ~Ok(c) THEN {}
      ELSE F("no_macro_calls", HasMacroCall(i, BodyStmts(o)))
           \cup F("refs_follow_decls", ObjRefsFollowDecls(i) /\ ~ObjRefsFollowDecls(o))
-          \cup F("meaning_mod_sub", ~mm)
-          \cup F("sub_annotations", mm /\ Meaning(o, <<>>) # Meaning(i, <<>>))
+          \* the meaning clauses are asserted for valid programs only (an out-of-range reference has no meaning to
+          \* preserve; that such programs are rejected in the end is C14's invalid_rejected)
+          \cup F("meaning_mod_sub", ValidIn(i, <<>>) /\ ~mm)
+          \cup F("sub_annotations", ValidIn(i, <<>>) /\ mm /\ Meaning(o, <<>>) # Meaning(i, <<>>))
           \cup F("header_carried", LetsOf(o) # LetsOf(i) \/ RegsOf(o) # RegsOf(i) \/ NativeSet(o) # NativeSet(i))
           \cup F("imports_carried", SeqToSet(o.imports) # SeqToSet(i.imports))
           \cup F("definitions", IF preserve THEN MacroSet(o) # MacroSet(i) ELSE o.macros # <<>>)
@@ -118,10 +129,11 @@ FillInMap(c) ==
      IF ~Ok(c) THEN {}
      ELSE F("no_alias_refs", AnyAliasRef(o))
           \cup F("refs_follow_decls", ObjRefsFollowDecls(i) /\ ~ObjRefsFollowDecls(o))
-          \cup F("meaning_mod_sub", ~mm)
-          \cup F("sub_annotations", mm /\ Meaning(o, <<>>) # Meaning(i, <<>>))
+          \* (meaning clauses: valid inputs only, as for the other passes)
+          \cup F("meaning_mod_sub", ValidIn(i, <<>>) /\ ~mm)
+          \cup F("sub_annotations", ValidIn(i, <<>>) /\ mm /\ Meaning(o, <<>>) # Meaning(i, <<>>))
           \cup F("header_carried", LetsOf(o) # LetsOf(i) \/ RegsOf(o) # RegsOf(i) \/ NativeSet(o) # NativeSet(i))
-          \cup F("macros_kept", MacroMeanings(o, <<>>) # MacroMeanings(i, <<>>))
+          \cup F("macros_kept", ValidIn(i, <<>>) /\ MacroMeanings(o, <<>>) # MacroMeanings(i, <<>>))
           \cup F("imports_carried", SeqToSet(o.imports) # SeqToSet(i.imports))
           \cup F("legal_nesting", LegalNesting(i) /\ ~LegalNesting(o))
 
@@ -163,7 +175,9 @@ Parse(c) ==
   Common(c) \cup
      IF ~Ok(c) THEN {}
      ELSE F("denotes", Meaning(o, <<>>) # Meaning(i, <<>>))
-          \cup F("refs_follow_decls", ~ObjRefsFollowDecls(o))
+          \* (a declaration whose check the parser defers - a constant-bounded slice reaching outside its source - has
+          \* no element table to follow; such programs are rejected by let substitution: C14 known_by_let_stage)
+          \cup F("refs_follow_decls", ValidRegs(i, <<>>) /\ ~ObjRefsFollowDecls(o))
           \cup F("registers", RegTabOf(o, <<>>) # RegTabOf(i, <<>>))
           \cup F("lets", Env(o, <<>>) # Env(i, <<>>))
           \cup F("macros", MacroMeanings(o, <<>>) # MacroMeanings(i, <<>>))
